@@ -2859,7 +2859,9 @@ def cbcheck(
         # reorder mass and stiffness:
         m = cbreorder(m, bseto)
         k = cbreorder(k, bseto)
-        i = np.argsort(bseto)
+        # uset rows are in the order of the b-set within Mcb and Kcb
+        # (sorted `bseto`): the row for bseto[j] has to move to j
+        i = np.argsort(np.argsort(bseto))
         uset = uset.iloc[i]
 
         # define "new" order of b-set:
